@@ -1656,6 +1656,119 @@ impl Prop for C17EngineGame {
     }
 }
 
+/// C16 at the level of the Game API: counters read through Game while a game is played by
+/// coordinate pairs, and the move-count draw as the game loops see it.
+pub struct C16GameApi;
+impl Prop for C16GameApi {
+    type Case = RepCase;
+    fn name(&self) -> &'static str {
+        "C16/game-api"
+    }
+    fn max_shrink_iters(&self) -> u32 {
+        300
+    }
+    fn strategy(&self, _tier: Tier) -> BoxedStrategy<RepCase> {
+        (
+            prop_oneof![
+                2 => Just(STANDARD[0].1.to_string()),
+                2 => gen::seed_fen(),
+                3 => gen::endgame(4).prop_map(|r| gen::build(&r).fen()),
+            ],
+            prop::collection::vec(
+                prop_oneof![
+                    6 => any::<u16>().prop_map(ROp::Quiet),
+                    3 => any::<u16>().prop_map(ROp::Move),
+                ],
+                20..260,
+            ),
+            0u8..90,
+        )
+            .prop_map(|(fen, ops, half)| {
+                let mut p = Pos::from_fen(&fen).unwrap();
+                p.half = half as u32;
+                RepCase { fen: p.fen(), ops }
+            })
+            .boxed()
+    }
+    fn cases(&self, tier: Tier) -> u32 {
+        tier.pick(600, 15_000)
+    }
+    fn test(&self, c: &RepCase, st: &mut Stats) -> TestResult {
+        let mut cur = Pos::from_fen(&c.fen).map_err(Failure::new)?;
+        cur.ply = 0;
+        let mut game = Game::from_board(to_board(&cur), 1);
+        let mut counts: BTreeMap<Key, u32> = BTreeMap::new();
+        let mut fide: BTreeMap<Key, u32> = BTreeMap::new();
+        counts.insert(key_literal(&cur), 1);
+        fide.insert(key_fide(&cur), 1);
+        let mut max_half = cur.half;
+        let mut reached_draw = false;
+        for op in &c.ops {
+            let legal = cur.legal_moves();
+            if legal.is_empty() {
+                break;
+            }
+            let m = match choose_rep(&cur, &legal, op, None) {
+                Some(m) => m,
+                None => continue,
+            };
+            // never beyond what a legal game allows (the 75-move rule ends it at 150)
+            if cur.half >= 149 && m.cap.is_none() && cur.sq[m.from as usize].map(|x| x.0) != Some(P::Pawn) {
+                break;
+            }
+            let played = game
+                .apply_chess_move_by_from_to_coordinates(bb(m.from), bb(m.to))
+                .map_err(|e| fail_pos(format!("legal move {} rejected by the game: {:?}", mv_text(&m), e), &cur))?;
+            game.board_mut().toggle_turn();
+            cur = cur.make(&mv_of(&played));
+            max_half = max_half.max(cur.half);
+            let full = game.fullmove_clock() as u64;
+            if full != 1 + cur.ply as u64 {
+                return Err(fail_pos(format!("Game::fullmove_clock() = {} after {} moves (expected {})", full, cur.ply, 1 + cur.ply), &cur));
+            }
+            let half = game.board().halfmove_clock() as u32;
+            if half != cur.half {
+                return Err(fail_pos(format!("half-move clock {} through the Game API but {} plies since the last capture or pawn move", half, cur.half), &cur));
+            }
+            st.count("game_api_moves", 1);
+            let a = {
+                let e = counts.entry(key_literal(&cur)).or_insert(0);
+                *e += 1;
+                *e
+            };
+            let b = {
+                let e = fide.entry(key_fide(&cur)).or_insert(0);
+                *e += 1;
+                *e
+            };
+            if cur.legal_moves().is_empty() {
+                break;
+            }
+            let ending = game.check_game_over_for_current_turn();
+            let is_draw = matches!(ending, Some(GameEnding::Draw));
+            if a >= 3 || b >= 3 {
+                break; // repetition is C17's business
+            }
+            let want = cur.half >= 100;
+            if is_draw != want {
+                return Err(fail_pos(
+                    format!("check_game_over_for_current_turn() = {:?} with half-move clock {} (no repetition): draw expected: {}", ending, cur.half, want),
+                    &cur,
+                ));
+            }
+            if want {
+                reached_draw = true;
+                break;
+            }
+        }
+        if max_half >= 50 {
+            st.label(if reached_draw { "draw-at-100-through-game-api" } else { "clock>=50-through-game-api" });
+            st.nontrivial(fp_of(c), || json!({"seed": c.fen, "max_half_move_clock": max_half}));
+        }
+        Ok(())
+    }
+}
+
 pub fn c17_checks() -> Vec<Box<dyn DynCheck>> {
     vec![Box::new(C17Board), Box::new(C17Game), Box::new(C17EngineGame)]
 }
